@@ -242,6 +242,8 @@ def run(ctx):
         fn = ctx.func(fq, "C11.R6")
         r6.check(needle in norm(fn.node), f"{fq.split(':')[1]}", "reads the survey's default_language", fn.loc())
     rules.append(r6)
+    from .c13 import cell_cleaning_rule
+    rules.append(cell_cleaning_rule(ctx, "C11", "C11.R7"))
     return rules
 
 
